@@ -319,6 +319,13 @@ func c10Configs(tier string) []*handCfg {
 			tc.Deck = "asc"
 			hc := &handCfg{name: fmt.Sprintf("lay%d/%s", li, blindName(b)), tcfg: tc, ids: l.ids, seatOf: l.seats, stacks: l.stacks, sitOut: true, hands: 1, line: lineExplore}
 			out = append(out, hc)
+			if li == 0 && b.Ante == 0 && b.Dealer == 0 {
+				// the sitting-out player holds player-list index 0: list indexes differ from hand indexes
+				d := *hc
+				d.sitOutFirst = true
+				d.name += "/sitting-out-first"
+				out = append(out, &d)
+			}
 		}
 	}
 	return out
